@@ -81,9 +81,15 @@ def section_digest(path, sections=(".debug_info", ".text", ".data", ".dynsym", "
     """Digest of selected sections (used to decide that a mutation took effect)."""
     import hashlib
     h = hashlib.sha256()
-    for s in sections:
-        r = subprocess.run(["objcopy", "-O", "binary", "--only-section=" + s, path, "/dev/stdout"],
-                           stdout=subprocess.PIPE, stderr=subprocess.DEVNULL)
-        h.update(s.encode())
-        h.update(r.stdout)
+    for k, sname in enumerate(sections):
+        out = "%s.sec%d.%d" % (path, k, os.getpid())
+        subprocess.run(["objcopy", "--dump-section", "%s=%s" % (sname, out), path, "/dev/null"],
+                       stdout=subprocess.DEVNULL, stderr=subprocess.DEVNULL)
+        h.update(sname.encode())
+        try:
+            with open(out, "rb") as fh:
+                h.update(fh.read())
+            os.unlink(out)
+        except OSError:
+            h.update(b"<absent>")
     return h.hexdigest()[:16]
